@@ -818,11 +818,16 @@ Print Assumptions title_after_history.
 Definition hx_links : dblock :=
   DPara (0, 1) [Str "see "; Link "a" "" Regular [Str "old a"]; Str " and "; Link "c.md" "" Regular [Str "old c"];
                 Emph [Link "d/b" "" Regular [Str "old b"]]; Link "zz" "" Regular [Str "nobody"]].
+(* the same links as they are typed in a note of the directory d/ (inline links are kept by key and written
+   relative to the note, like block references) *)
+Definition hx_links_d : dblock :=
+  DPara (0, 1) [Str "see "; Link "../a" "" Regular [Str "old a"]; Str " and "; Link "../c.md" "" Regular [Str "old c"];
+                Emph [Link "./b" "" Regular [Str "old b"]]; Link "zz" "" Regular [Str "nobody"]].
 Definition hx_ref (u : string) : dblock := DPara (0, 1) [Link u "" Regular [Str "stale"]].
 Definition hx_table : dblock :=
   DTable (0, 1) [[Str "h"]; [Link "a" "" Regular [Str "x"]]] [ANone; ALeft] [[[Str "1"]; [Str "2"]]].
 Definition hx_a3 : list dblock := [DHeader (0, 1) 1 [Str "A3"]; ex_l; ex_q; hx_ref "c"; hx_ref "d/b"; hx_links].
-Definition hx_b2 : list dblock := [DHeader (0, 1) 2 [Str "B"; Emph [Str "2"]]; hx_links; hx_table].
+Definition hx_b2 : list dblock := [DHeader (0, 1) 2 [Str "B"; Emph [Str "2"]]; hx_links_d; hx_table].
 Definition hx_c1 : list dblock := [ex_h; ex_l; hx_table; hx_ref "a"; hx_ref "d/b"].
 Definition hx_ops : list op :=
   [("a", None, [ex_p; ex_h; ex_p; ex_l; hx_links; hx_ref "c"]);
@@ -848,7 +853,7 @@ Example hx_runs :
       length (gr_arena g') = 44 /\ gr_keys g' = [("a", 0); ("c", 26); ("d/b", 40)] /\
       to_markdown (Opts ".md") ["TBL"] g "d/b" = to_markdown (Opts ".md") ["TBL"] g' "d/b" /\
       to_markdown (Opts ".md") ["TBL"] g "d/b"
-      = Ok ("# B*2*" +++ LFS +++ LFS +++ "see [A3](a.md) and [T](c.md)*[B2](d/b.md)*[nobody](zz.md)" +++ LFS +++ LFS +++ "TBL" +++ LFS)
+      = Ok ("# B*2*" +++ LFS +++ LFS +++ "see [A3](../a.md) and [T](../c.md)*[B2](b.md)*[nobody](zz.md)" +++ LFS +++ LFS +++ "TBL" +++ LFS)
   | _, _ => False
   end.
 Proof. vm_compute. repeat split; reflexivity. Qed.
